@@ -375,7 +375,7 @@ func (g *Gen) Stmt(d int, o BodyOpts) GNode {
 			x.Key = "idx"
 		}
 		saved := *g
-		g.Strs = append(append([]string{}, g.Strs...))
+		g.Strs = append([]string{}, g.Strs...)
 		o2 := o
 		o2.InLoop = true
 		body := []GNode{NText{"["}, NPrint{EVar{x.Val}}}
